@@ -336,7 +336,7 @@ def struct_rules(ctx, item):
         det = 'cond %s ret %s cast %s base %s alt %s' % (cond[:60], p1[0], p2[0], pb[0], labs)
         okv = present_exact(item.opts[int(o)][1], 'vftable') and p1[0] is not None and p1[0] == p2[0] and p1[0].endswith('.type_') and pb[0] is not None and 'base_field' in pb[0] and \
             len(labs) == 2 and 'base_field' in labs[0] and labs[0].endswith('=Some') and labs[1].endswith('=None')
-    ctx.ob(['C06', 'C04'], 'R-TMPL', 'struct|vftable-accessor', okv,
+    ctx.ob(['C06', 'C04', 'C13'], 'R-TMPL', 'struct|vftable-accessor', okv,
            'vftable() returns self.<base field>.vftable() when the pointer lives in a base, self.vftable otherwise, cast to the type\'s own table pointer type: %s' % det, where)
     # methods
     reps = re.findall(r'REP(\d+)\( ⟨E\d+:ALT\d+\{  \|\| REP\d+\( ⟨E\d+:# \[ doc', s)
